@@ -154,7 +154,12 @@ fn parse_newick_file(content: &str) -> Result<TreeValue> {
         .next()
         .unwrap();
 
-    Ok(parse_value(root))
+    // A tree without a root subtree (";" or ":0.1;") is parsed as a lone branch:
+    // its unnamed node is the root (a root has no incoming edge to carry the length).
+    Ok(match parse_value(root) {
+        TreeValue::Link { node, .. } => *node,
+        node => node,
+    })
 }
 
 /// Convert an intermediary `TreeValue` to the public `Tree` type
